@@ -302,8 +302,9 @@ def _ellswift_shard(plist):
                 st.evals += 1
                 try:
                     x = ellswift._xswiftec_var(u, t, ec)
-                except errs:
-                    st.outcomes["decode-refused"] += 1
+                except errs as e:
+                    # the map is total on a curve it supports: every pair of field elements decodes
+                    st.violation("C16/ellswift/decode-refused", {"curve": ck, "u": u, "t": t}, repr(e)[:60], "an x of the curve")
                     continue
                 if x not in {pt[0] for pt in pts}:
                     st.violation("C16/ellswift/decode-off-curve", {"curve": ck, "u": u, "t": t}, x, "an x of the curve")
@@ -356,7 +357,8 @@ def _ellswift_shard(plist):
                     except Lap:
                         st.violation("C16/ellswift/encoder-never-terminates", {"curve": ck, "d": d}, "no (u, case) encodes this key", "an encoding")
                         break
-                    except errs:
+                    except errs as ex:
+                        st.violation("C16/ellswift/encoder-refused", {"curve": ck, "d": d, "start": start}, repr(ex)[:60], "an encoding")
                         continue
                 if ellswift.decode_var(e, ec) != tab[d]:
                     st.violation("C16/ellswift/encoding-decodes-to-another-key", {"curve": ck, "d": d, "start": start}, ellswift.decode_var(e, ec), tab[d])
@@ -383,7 +385,8 @@ def _ellswift_shard(plist):
 
 def ellswift_toy(ctx):
     params = [c for c in R.universe_params(ctx.pick(19, 31)) if c[1] == 0 and c[0] % 3 == 1]
-    st = ctx.pmap(_ellswift_shard, [[c] for c in params])
+    # several curves per shard, in two orders: state kept between calls (the constants' memo) must not leak from one curve to the next
+    st = ctx.pmap(_ellswift_shard, shard_round_robin(params, 8) + [sh[::-1] for sh in shard_round_robin(params, 8)])
     st.notes["curves"] = len(params)
     # secp256k1: both arms agree, both parties agree
     from btclib.ecc import ellswift
